@@ -133,20 +133,21 @@ theorem expandEdge_nil (W : World) (e : IREdge) {fromV toV : IRVertex}
 /-! ### how a context grows along the pipeline -/
 
 /-- `c'` is `c` after recording the Vids `vs` (in that order); nothing else changed, except
-possibly the active vertex. -/
+possibly the active vertex and the `suspended` stack (a recursion from an existing vertex leaves a
+stale `None` there when the incoming context had no active vertex). -/
 def Ext (c c' : Ctx) (vs : List Vid) : Prop :=
   ∃ ext, c'.vertices = c.vertices ++ ext ∧ ext.map (·.1) = vs ∧ c'.values = c.values ∧
-    c'.suspended = c.suspended ∧ c'.foldCounts = c.foldCounts ∧ c'.foldedValues = c.foldedValues ∧
+    c'.foldCounts = c.foldCounts ∧ c'.foldedValues = c.foldedValues ∧
     c'.importedTags = c.importedTags
 
 theorem Ext.refl (c : Ctx) : Ext c c [] := ⟨[], by simp⟩
 
 theorem Ext.trans {c c' c'' : Ctx} {vs vs' : List Vid} (h1 : Ext c c' vs) (h2 : Ext c' c'' vs') :
     Ext c c'' (vs ++ vs') := by
-  obtain ⟨e1, a1, a2, a3, a4, a5, a6, a7⟩ := h1
-  obtain ⟨e2, b1, b2, b3, b4, b5, b6, b7⟩ := h2
+  obtain ⟨e1, a1, a2, a3, a4, a5, a6⟩ := h1
+  obtain ⟨e2, b1, b2, b3, b4, b5, b6⟩ := h2
   exact ⟨e1 ++ e2, by simp [b1, a1], by simp [a2, b2], b3.trans a3, b4.trans a4, b5.trans a5,
-    b6.trans a6, b7.trans a7⟩
+    b6.trans a6⟩
 
 /-- Changing the active vertex of the starting context does not matter. -/
 theorem Ext.of_active {c c' : Ctx} {vs : List Vid} (v : Option VertexId)
@@ -154,6 +155,11 @@ theorem Ext.of_active {c c' : Ctx} {vs : List Vid} (v : Option VertexId)
 
 theorem Ext.record (c : Ctx) (vid : Vid) : Ext c (Ctx.record c vid) [vid] :=
   ⟨[(vid, c.active)], by simp [Ctx.record]⟩
+
+theorem Ext.abs {c c' : Ctx} (W : World) (h : Ext c c' []) : W.abs c' = W.abs c := by
+  obtain ⟨ext, a1, a2, _⟩ := h
+  have : ext = [] := by simpa using a2
+  simp [World.abs, a1, this]
 
 theorem Ext.keys {c c' : Ctx} {vs : List Vid} (h : Ext c c' vs) : keys c' = keys c ++ vs := by
   obtain ⟨ext, a1, a2, _⟩ := h
